@@ -70,6 +70,9 @@ inline Universe build_universe(bool thorough)
     LEAF("-(2^64+1)", BI("-18446744073709551617"), false);
     LEAF("2^64+2^32", BI("18446744078004518912"), false);
     LEAF("10^40", BI("10000000000000000000000000000000000000000"), false);
+    LEAF("2^128+5", BI("340282366920938463463374607431768211461"), false);
+    LEAF("-(2^200)", BI("-1606938044258990275541962092341162602522202993782792835301376"), false);
+    LEAF("5", integer(5), false);
     LEAF("1/2", Q("1", "2"), true);
     LEAF("-1/2", Q("-1", "2"), true);
     LEAF("2/3", Q("2", "3"), false);
